@@ -2,7 +2,7 @@
    Only ExtrOcamlBasic is used (bool, option, unit, list, prod, sumbool
    mapped to OCaml's; andb/orb inlined); Z, N, positive, nat stay the
    extracted inductive datatypes. *)
-From Strcase Require Import Base Utf8 Fold Spec FoldTables Impl Impl2 Kernels.
+From Strcase Require Import Base Utf8 Fold Spec FoldTables Impl Impl2 Impl3 Kernels.
 From Coq Require Import Extraction ExtrOcamlBasic.
 Extraction Language OCaml.
 
@@ -63,6 +63,11 @@ Definition i_trim_suffix_str := Impl2.TrimSuffix fold121 lower_str.
 Definition i_trim_suffix_byt := Impl2.TrimSuffix fold121 lower_byt.
 Definition i_cut_suffix_str := Impl2.CutSuffix fold121 lower_str.
 Definition i_cut_suffix_byt := Impl2.CutSuffix fold121 lower_byt.
+Definition i_idx (s t : bytes) : res Z := Ok (index fold121 s t).
+Definition i_count_str := Impl3.Count i_idx Str.
+Definition i_count_byt := Impl3.Count i_idx Byt.
+Definition i_cut_str := Impl3.Cut i_idx Str.
+Definition i_cut_byt := Impl3.Cut i_idx Byt.
 Definition i_contains_kelvin := Impl.contains_kelvin.
 Definition i_index_byte_generic := index_byte_generic.
 Definition i_count_generic := count_generic.
@@ -72,7 +77,7 @@ Definition i_index_non_ascii_generic := index_non_ascii_generic.
 Extraction "model.ml"
   i_compare_str i_compare_byt i_has_prefix_unicode_str i_has_prefix_unicode_byt
   i_trim_prefix_str i_trim_prefix_byt i_cut_prefix_str i_cut_prefix_byt
-  i_has_suffix_unicode_str i_has_suffix_unicode_byt i_trim_suffix_str i_trim_suffix_byt i_cut_suffix_str i_cut_suffix_byt i_contains_kelvin i_index_byte_generic i_count_generic i_count_simd i_index_non_ascii_generic
+  i_has_suffix_unicode_str i_has_suffix_unicode_byt i_trim_suffix_str i_trim_suffix_byt i_cut_suffix_str i_cut_suffix_byt i_count_str i_count_byt i_cut_str i_cut_byt i_contains_kelvin i_index_byte_generic i_count_generic i_count_simd i_index_non_ascii_generic
   m_case_fold m_fold_map m_fold_map_excl m_to_upper_lower m_lower_str m_lower_byt
   m_decode m_decode_last m_rune_len m_valid_rune m_encode m_rune_count m_valid_utf8
   s_compare s_equal_fold s_index s_contains s_last_index s_has_prefix s_has_suffix
